@@ -1,7 +1,7 @@
 """C10 — bounded queue: back-pressure without losing or duplicating items (queue.h: limited_queue<T>)."""
 from props import queuecommon as qc
 
-RULE = ("seq: limits 1,2,3,4,7,16; aimed histories around size = limit-1, limit, limit+k with 1-4 blocked producers (pop completing exactly "
+RULE = ("item types int, unique_ptr<int> (move-only) and a move-observable struct, pushed as rvalues; seq: limits 1,2,3,4,7,16; aimed histories around size = limit-1, limit, limit+k with 1-4 blocked producers (pop completing exactly "
         "the oldest blocked push, unblock_push withdrawing the oldest blocked item, waiting consumers first, destruction with blocked "
         "producers / waiting consumers, oscillation around the limit, refill after drain) + random + malformed histories; ctl: 1-3 producer, "
         "1-3 consumer and an unblock_push thread on limited_queue<int> with limit 1-4 under controlled schedules; thorough adds every history "
@@ -23,7 +23,7 @@ def gen_ctl(seed, tier):
 
 
 def nontrivial(case, model_obs):
-    if case.engine == "tlq":
+    if case.engine.startswith("t"):
         return qc.ctl_nontrivial(case, model_obs)
     for l in model_obs:
         a = qc.parse(l)
